@@ -418,6 +418,10 @@ func faultOne(sc *faultScn, idx int) verdict {
 	// sticky (C06): every later operation also fails, promptly
 	if sc.Fault != "stall" && class == "error" && op.next != nil && !op.openIsOp {
 		for i := 0; i < 2 && v.OK; i++ {
+			// a persistent read error is re-offered by the read loop after its read delay; an operation started inside
+			// that window (< 100 us) can still consume queued stale data. Not asserted here: give the loop time to re-park.
+			time.Sleep(2 * time.Millisecond)
+
 			t1 := time.Now()
 
 			var nerr error
